@@ -58,7 +58,27 @@ RulesFor(R) ==
         /\ Same(TAnd(<<R, S, TEps>>), IF Nul(R) /\ Nul(S) THEN TEps ELSE TNone)
         /\ Incl(S, R) => Same(TAlt(<<R, S, T>>), TAlt(<<R, T>>))         \* dropping a subsumed operand
 
-JudgeR(n) == IF RulesFor(S1[n]) THEN TRUE ELSE PrintT(<<"RULEBUG", S1[n]>>) /\ FALSE
+(* The derivative algorithm (ReManager::compute_derivative), rule by rule, on kernel terms:            *)
+(*   d(none) = d(eps) = none;  d([lo,hi]) = eps if c in it else none;                                  *)
+(*   d(R.S) = d(R).S + (d(S) if R nullable);  d(R^[i,j]) = d(R).R^shift[i,j];                          *)
+(*   d(~R) = ~d(R);  d(and/alt) componentwise;  d(str) by its first character.                         *)
+(* Checked against the left quotient  { w : c.w in L(t) }  (TQuot) on all words.                       *)
+RECURSIVE Deriv(_, _)
+Deriv(t, c) ==
+  CASE t.k \in {"none", "eps"} -> TNone
+    [] t.k = "rng"  -> IF t.lo <= c /\ c <= t.hi THEN TEps ELSE TNone
+    [] t.k = "str"  -> IF Len(t.w) >= 1 /\ t.w[1] = c THEN TStr(Tail(t.w)) ELSE TNone
+    [] t.k = "cat2" -> LET d1 == TCat(Deriv(t.a, c), t.b) IN
+                       IF Nul(t.a) THEN TAlt(<<d1, Deriv(t.b, c)>>) ELSE d1
+    [] t.k = "loop" -> TCat(Deriv(t.a, c), L(t.a, LRg!ShiftCF(<<t.lo, t.hi>>)))
+    [] t.k = "not"  -> TNot(Deriv(t.a, c))
+    [] t.k = "alt"  -> TAlt([i \in 1..Len(t.xs) |-> Deriv(t.xs[i], c)])
+    [] t.k = "and"  -> TAnd([i \in 1..Len(t.xs) |-> Deriv(t.xs[i], c)])
+    [] t.k = "quot" -> Deriv(Deriv(t.a, t.c), c)
+DerivOk(R) == \A c \in Sigma : Same(Deriv(R, c), TQuot(c, R))
+                 /\ \A c2 \in Sigma : Same(Deriv(Deriv(R, c), c2), TQuot(c2, TQuot(c, R)))
+
+JudgeR(n) == IF RulesFor(S1[n]) /\ DerivOk(S1[n]) /\ DerivOk(L(S1[n], <<1, 2>>)) /\ DerivOk(L(S1[n], <<2, -1>>)) THEN TRUE ELSE PrintT(<<"RULEBUG", S1[n]>>) /\ FALSE
 InitR == l \in 1..(IF N1 < K THEN N1 ELSE K)
 NextR == l <= N1 /\ JudgeR(l) /\ l' = l + K
 DoneR == TLCGet("stats").distinct = N1 + (IF N1 < K THEN N1 ELSE K)
